@@ -184,20 +184,23 @@ End AddProofs.
 Section ShapeInd.
   Variable P : shape -> Prop.
   Hypothesis HO : P SOther.
-  Hypothesis HB : forall ph, P (SBin ph).
-  Hypothesis HM : forall n, P (SMapPh n).
+  Hypothesis HB : forall st ph, P (SBin st ph).
   Hypothesis HS : forall l, Forall P l -> P (SSeq l).
+  Hypothesis HM : forall e l, Forall P l -> P (SMap e l).
+  Hypothesis HP : forall n fb, P fb -> P (SPhMap n fb).
 
   Fixpoint shape_ind' (s : shape) : P s :=
+    let all := fix go (l : list shape) : Forall P l :=
+                 match l with
+                 | [] => Forall_nil P
+                 | x :: l' => Forall_cons x (shape_ind' x) (go l')
+                 end in
     match s with
     | SOther => HO
-    | SBin ph => HB ph
-    | SMapPh n => HM n
-    | SSeq l => HS l ((fix go (l : list shape) : Forall P l :=
-                         match l with
-                         | [] => Forall_nil P
-                         | x :: l' => Forall_cons x (shape_ind' x) (go l')
-                         end) l)
+    | SBin st ph => HB st ph
+    | SSeq l => HS l (all l)
+    | SMap e l => HM e l (all l)
+    | SPhMap n fb => HP n fb (shape_ind' fb)
     end.
 End ShapeInd.
 
@@ -222,16 +225,41 @@ Proof.
   split; [lia|]. replace (S (Z.to_nat n)) with (Z.to_nat (n + 1)) by lia. exact Hn.
 Qed.
 
+Lemma set_map_index_iface b : set_map_index_bytes true b = Ok (VBin b).
+Proof. reflexivity. Qed.
+
+(** The walk never panics: placeholder numbers are range-checked before the buffers are indexed,
+    and an attachment is stored into a map only when the map's element type is an interface type,
+    so SetMapIndex never receives a value it cannot assign. *)
 Lemma recon_value_no_panic buffers s : recon_value buffers s <> Panic.
 Proof.
-  induction s as [| [n|] | n | l IH] using shape_ind'; cbn [recon_value]; try discriminate.
-  - apply rbind_no_panic; [apply pick_spec|]. discriminate.
-  - apply rbind_no_panic; [apply pick_spec|]. discriminate.
+  induction s as [| st [n|] | l IH | e l IH | n fb IH] using shape_ind'; cbn [recon_value]; try discriminate.
+  - apply rbind_no_panic; [apply pick_spec|]. intros b _. destruct st; discriminate.
   - apply rbind_no_panic; [|discriminate].
     induction IH as [|x l Hx Hl IHl]; [discriminate|].
     apply rbind_no_panic; [exact Hx|]. intros v _.
     apply rbind_no_panic; [exact IHl|]. discriminate.
+  - apply rbind_no_panic; [|discriminate].
+    induction IH as [|x l Hx Hl IHl]; [discriminate|].
+    apply rbind_no_panic.
+    + destruct x as [| ph | l0 | e0 l0 | n fb]; try exact Hx.
+      destruct e.
+      * apply rbind_no_panic; [apply pick_spec|]. intros b _. discriminate.
+      * exact Hx.
+    + intros v _. apply rbind_no_panic; [exact IHl|]. discriminate.
+  - exact IH.
 Qed.
+
+Lemma recon_typed_entry buffers n fb :
+  recon_value buffers (SMap false [SPhMap n fb]) =
+  rbind (recon_value buffers fb) (fun v => Ok (VSeq [v])).
+Proof. cbn [recon_value]. destruct (recon_value buffers fb); reflexivity. Qed.
+
+Lemma inner_guard_refuted :
+  let bufs := [[91]; [1; 2; 3]]%N in
+  let s := SMap false [SPhMap 0 (SMap true [SOther; SOther])] in
+  recon_value_inner_guard bufs s = Panic /\ recon_value bufs s = Ok (VSeq [VSeq [VOther; VOther]]).
+Proof. vm_compute. split; reflexivity. Qed.
 
 Lemma recon_values_no_panic buffers l : recon_values buffers l <> Panic.
 Proof.
@@ -286,11 +314,10 @@ Definition seq_bins := fix go (l : list value) : list bytes :=
 Lemma recon_value_bins buffers s : forall v,
   recon_value buffers s = Ok v -> forall b, In b (bins_of v) -> In b (tl buffers).
 Proof.
-  induction s as [| ph | n | l IH] using shape_ind'; cbn [recon_value]; intros v Hv b Hb.
+  induction s as [| st ph | l IH | e l IH | n fb IH] using shape_ind'; cbn [recon_value]; intros v Hv b Hb.
   - inversion Hv; subst; simpl in Hb; contradiction.
   - destruct ph as [n|]; [|discriminate]. apply rbind_ok in Hv as (x & Hp & Hx).
-    inversion Hx; subst. simpl in Hb. destruct Hb as [<-|[]]. eapply pick_in; eauto.
-  - apply rbind_ok in Hv as (x & Hp & Hx).
+    destruct st; [|discriminate].
     inversion Hx; subst. simpl in Hb. destruct Hb as [<-|[]]. eapply pick_in; eauto.
   - apply rbind_ok in Hv as (vs & Hgo & Hx). inversion Hx; subst; clear Hx.
     change (In b (seq_bins vs)) in Hb.
@@ -299,6 +326,19 @@ Proof.
     + apply rbind_ok in Hgo as (v & Hv & Hgo). apply rbind_ok in Hgo as (vs' & Hvs & Hgo).
       inversion Hgo; subst; clear Hgo. cbn [seq_bins] in Hb.
       apply in_app_or in Hb as [Hb|Hb]; [eapply Hx; eauto | eapply IHl; eauto].
+  - apply rbind_ok in Hv as (vs & Hgo & Hx). inversion Hx; subst; clear Hx.
+    change (In b (seq_bins vs)) in Hb.
+    revert vs Hgo Hb. induction IH as [|x l Hx Hl IHl]; intros vs Hgo Hb.
+    + inversion Hgo; subst. simpl in Hb. contradiction.
+    + apply rbind_ok in Hgo as (v & Hv & Hgo). apply rbind_ok in Hgo as (vs' & Hvs & Hgo).
+      inversion Hgo; subst; clear Hgo. cbn [seq_bins] in Hb.
+      apply in_app_or in Hb as [Hb|Hb]; [|eapply IHl; eauto].
+      destruct x as [| st ph | l0 | e0 l0 | n fb]; try (eapply Hx; eauto; fail).
+      destruct e.
+      * apply rbind_ok in Hv as (bb & Hp & Hset). inversion Hset; subst.
+        simpl in Hb. destruct Hb as [<-|[]]. eapply pick_in; eauto.
+      * eapply Hx; eauto.
+  - eapply IH; eauto.
 Qed.
 
 Lemma recon_values_bins buffers l : forall vs,
